@@ -86,10 +86,10 @@ func specPlain4(p *packets.FrameParser) bool {
 //@ requires[pre.past]       forall(k, 0, len(t.sentProbes), t.sentProbes[k].sendTime <= now() && t.sentProbes[k].sendTime != 0)
 //@ ensures[C09.xor]         (ret0 == nil) != (ret1 == nil)
 //@ ensures[C09.class]       ret1 != nil ==> chain(ret1, *common.ReceiveProbeNoPktError) || chain(ret1, *common.BadPacketError)
-//@ ensures[C01+C05+C11.sound.kind]  ret0 != nil ==> specIsTCP(t.parser) || specIsTE4(t.parser)
-//@ ensures[C01+C05+C11.sound.direct] ret0 != nil && specIsTCP(t.parser) ==> specGenuineDirect(t, t.parser, ret0.TTL)
-//@ ensures[C01+C05+C11.sound.te.flow] ret0 != nil && specIsTE4(t.parser) ==> specFlowTE(t, t.parser)
-//@ ensures[C01+C05+C11.sound.te.id]  ret0 != nil && specIsTE4(t.parser) ==> exists(k, 0, len(t.sentProbes), t.sentProbes[k].packetID == specQuotedID(t.parser) && t.sentProbes[k].seqNum == specQuotedSeq(t.parser) && t.sentProbes[k].ttl == ret0.TTL && t.sentProbes[k].sendTime != 0)
+//@ ensures[C01+C05+C11+C12.sound.kind]  ret0 != nil ==> specIsTCP(t.parser) || specIsTE4(t.parser)
+//@ ensures[C01+C05+C11+C12.sound.direct] ret0 != nil && specIsTCP(t.parser) ==> specGenuineDirect(t, t.parser, ret0.TTL)
+//@ ensures[C01+C05+C11+C12.sound.te.flow] ret0 != nil && specIsTE4(t.parser) ==> specFlowTE(t, t.parser)
+//@ ensures[C01+C05+C11+C12.sound.te.id]  ret0 != nil && specIsTE4(t.parser) ==> exists(k, 0, len(t.sentProbes), t.sentProbes[k].packetID == specQuotedID(t.parser) && t.sentProbes[k].seqNum == specQuotedSeq(t.parser) && t.sentProbes[k].ttl == ret0.TTL && t.sentProbes[k].sendTime != 0)
 //@ ensures[C01.addr]        ret0 != nil ==> ret0.IP == packets.SpecOuterSrc(t.parser)
 //@ ensures[C02.compl.direct] forall(ttl, 0, 256, specGenuineDirect(t, t.parser, ttl) ==> ret0 != nil && int(ret0.TTL) == ttl)
 //@ ensures[C02.compl.te]    specPlain4(t.parser) && specFlowTE(t, t.parser) && exists(k, 0, len(t.sentProbes), t.sentProbes[k].packetID == specQuotedID(t.parser) && t.sentProbes[k].seqNum == specQuotedSeq(t.parser)) ==> ret0 != nil
